@@ -23,7 +23,7 @@ for sid in ids:
     try:
         rc, out = sh(f"./check {prop} {TIER}", cwd=VERIF, env=dict(os.environ, VERIF_SEED=os.environ.get("VERIF_SEED", "1"), VERIF_REPO=REPO))
     finally:
-        sh("git checkout -- .", cwd=REPO)
+        sh("git checkout -- ." + ("" if REPO == "/repo" else " && git clean -fdq"), cwd=REPO)  # new files of a patch are removed in scratch worktrees
     sigs = sorted(set(re.findall(r"violation signature: (.*)", out)))
     status = "caught" if rc == 1 else ("INCONCLUSIVE" if rc == 2 else "MISSED")
     if rc != 1:
